@@ -30,14 +30,14 @@ class P(vlib.Prop):
         "hard links: the target is looked up among the names this package wrote so far (exact text); links to symlinks / directories and duplicate names are C06/C07/C17 territory and are not generated",
     )
     level_text = ("Theorems about an executable model of ExpandApk's cut of the served stream (which member is hashed as control section, that ALL remaining members are the data section, that nothing may follow), "
-                  "its per-file check, controlValue's reading of the .PKGINFO text, the tar index's refusal of sparse entries, verifyExpanded, the sources of a fetch (origin, pre-populated cache file, offline), cachePackage / cachedPackage over the three cache files, the process-wide memo, and the lazy and streaming installs (regular files, symlinks, hard links, other types), "
+                  "its per-file check, checksumFromHeader (record key and base64 prefix read from the three copies in the source by goextract, hex decoding in Coq), controlValue's reading of the .PKGINFO text, the tar index's refusal of sparse entries, verifyExpanded, the sources of a fetch (origin, pre-populated cache file, offline), cachePackage / cachedPackage over the three cache files, the process-wide memo, and the lazy and streaming installs (regular files, symlinks, hard links, other types), "
                   "for all handles, served streams, cache contents satisfying the population invariant and memo states; c05_end_to_end: under collision resistance every installed file's bytes are the body of an entry of the "
                   "data bytes whose SHA-256 the control member records whose SHA-1 the handle records, for the cold, warm-cache and memo paths and both install paths; tied to the code by differential comparison of "
                   "install sequences through the public API; the verified validator of the chain is run on what the real code installed.")
     level_note = ("trusted: Coq kernel, Go harness/printer (its gzip/tar/.PKGINFO decoding fills the oracle tables), synthrepo; modelled not verified: Go text of ExpandApk/expandApkWriter.Next/checkSums/expandPackage/"
                   "verifyExpanded/cachedPackage/cachePackage/PackageData/apkCache.get/installAPKFiles/WriteHeader, gzip, archive/tar, crypto; correspondence is differential testing, not proof")
     design_ref = "DESIGN.md 7 C05"
-    modelled_not_verified = ("ExpandApk (member cut, hashes, checkSums), expandPackage, verifyExpanded, cachedPackage, cachePackage, PackageData's rebuild, apkCache.get, installAPKFiles/installRegularFile, "
+    modelled_not_verified = ("ExpandApk (member cut, hashes, checkSums), checksumFromHeader (literals generated, structure by hand), expandPackage, verifyExpanded, cachedPackage, cachePackage, PackageData's rebuild, apkCache.get, installAPKFiles/installRegularFile, "
                              "tarfs WriteHeader are modelled by hand (Model/PkgAuth.v); not modelled: sizes recorded in APKExpanded, the .sig.tar.gz cache file, cacheDirForPackage (C18), "
                              "the temp-file protocol of the cache (C19), conflicts between packages (C07), isInstalledPackage's skip, scripts.tar / triggers written from the control file")
 
